@@ -86,6 +86,7 @@ func (vfs *OrefaFS) createNode(parent *node, absPath, fileName string, mode fs.F
 	nd := &node{
 		id:    atomic.AddUint64(vfs.lastId, 1),
 		mtime: time.Now().UnixNano(),
+		dir:   mode.IsDir(),
 		mode:  mode,
 		uid:   vfs.User().Uid(),
 		gid:   vfs.User().Gid(),
@@ -168,6 +169,12 @@ func (nd *node) remove() {
 	nd.nlink--
 }
 
+// isDir returns true if the node is a directory.
+// The type of a node never changes : no lock is needed, unlike for its mode.
+func (nd *node) isDir() bool {
+	return nd.dir
+}
+
 // setMode sets the permissions of the file node.
 func (nd *node) setMode(mode fs.FileMode) {
 	nd.mode &^= avfs.FileModeMask
@@ -192,7 +199,7 @@ func (nd *node) setOwner(uid, gid int) {
 
 // size returns the size of the file.
 func (nd *node) size() int64 {
-	if nd.mode.IsDir() {
+	if nd.isDir() {
 		return int64(len(nd.children))
 	}
 
